@@ -74,6 +74,10 @@ func runC14(c *mon.Ctx) {
 		priv[i] = &rsa.PrivateKey{PublicKey: rsa.PublicKey{N: k.N, E: int(k.E)}, D: k.D, Primes: []*big.Int{k.P, k.Q}}
 	}
 
+	keySnap := make([][2]string, len(keys))
+	for i, k := range keys {
+		keySnap[i] = [2]string{k.N.Text(16), k.D.Text(16)}
+	}
 	type job struct {
 		scheme string
 		key    int
@@ -142,8 +146,13 @@ func runC14(c *mon.Ctx) {
 			rd := &recReader{r: r}
 			var ct []byte
 			var err error
+			dataCopy := append([]byte(nil), data...)
 			pv, stack := mon.Try(func() { ct, err = crypto.RSAPad(data, &pk.PublicKey, rd) })
 			c.Eval(1)
+			if !bytes.Equal(data, dataCopy) {
+				c.Violate("immutability|RSAPad|data-modified", wit("before", hx(dataCopy), "after", hx(data)))
+				copy(data, dataCopy)
+			}
 			if pv != nil {
 				c.Violate("pad|panic|encode", wit("panic", fmt.Sprint(pv), "stack", stack, "data", hx(data)))
 				return
@@ -196,8 +205,12 @@ func runC14(c *mon.Ctx) {
 			}
 			// real decoder
 			var dec []byte
-			pv, stack = mon.Try(func() { dec, err = crypto.DecodeRSAPad(append([]byte(nil), ct...), pk) })
+			ctIn := append(make([]byte, 0, 256+64), ct...) // spare capacity behind the ciphertext
+			pv, stack = mon.Try(func() { dec, err = crypto.DecodeRSAPad(ctIn, pk) })
 			c.Eval(1)
+			if !bytes.Equal(ctIn, ct) || !bytes.Equal(ctIn[256:256+64], make([]byte, 64)) {
+				c.Violate("immutability|DecodeRSAPad|ciphertext-buffer-modified", wit("ct", hx(ct)))
+			}
 			switch {
 			case pv != nil:
 				c.Violate("pad|panic|decode", wit("panic", fmt.Sprint(pv), "stack", stack, "ct", hx(ct)))
@@ -268,8 +281,12 @@ func runC14(c *mon.Ctx) {
 				}
 			}
 			var dec []byte
-			pv, stack = mon.Try(func() { dec, err = crypto.RSADecryptHashed(append([]byte(nil), ct...), pk) })
+			ctIn := append(make([]byte, 0, 256+64), ct...)
+			pv, stack = mon.Try(func() { dec, err = crypto.RSADecryptHashed(ctIn, pk) })
 			c.Eval(1)
+			if !bytes.Equal(ctIn, ct) || !bytes.Equal(ctIn[256:256+64], make([]byte, 64)) {
+				c.Violate("immutability|RSADecryptHashed|ciphertext-buffer-modified", wit("ct", hx(ct)))
+			}
 			switch {
 			case pv != nil:
 				c.Violate("hashed|panic|decode", wit("panic", fmt.Sprint(pv), "stack", stack, "ct", hx(ct)))
@@ -305,4 +322,9 @@ func runC14(c *mon.Ctx) {
 		}
 	})
 	c14History(c, keys, priv)
+	for i, k := range keys {
+		if k.N.Text(16) != keySnap[i][0] || k.D.Text(16) != keySnap[i][1] || int64(priv[i].E) != k.E {
+			c.Violate("immutability|rsa-key-modified", map[string]any{"key": k.Name})
+		}
+	}
 }
